@@ -115,6 +115,33 @@ impl Scenario {
 		None
 	}
 
+	fn selected_by_a_snapshot(&self, i: usize) -> bool {
+		let all = [true; MAXN];
+		let mut j = 0;
+		let mut sel = false;
+		while j < self.ns {
+			if self.visible(self.snaps[j], &all) == Some(i) {
+				sel = true;
+			}
+			j += 1;
+		}
+		sel
+	}
+	fn only_expired_replace_barriers_above(&self, i: usize) -> bool {
+		let mut ok = true;
+		let mut j = 0;
+		while j < i {
+			if self.is_hard(j) {
+				ok = false;
+			}
+			if self.is_replace(j) && !(self.retention > 0 && self.now - self.ts[j] > self.retention) {
+				ok = false;
+			}
+			j += 1;
+		}
+		ok
+	}
+
 	/// What a reader with this horizon is shown for the key, before (all) and after (kept) compaction.
 	fn check_view(&self, horizon: u64, kept: &[bool; MAXN]) {
 		let all = [true; MAXN];
@@ -331,8 +358,6 @@ fn history_retained(maxn: usize, maxs: usize) {
 		kani::assume(sc.ts[i] <= sc.now);
 		i += 1;
 	}
-	#[cfg(verif_kf_f7)]
-	kani::assume(sc.ns == 0);
 	let kept = run(&sc);
 	let newest_is_hard_delete_at_bottom = sc.bottom && sc.is_hard(0);
 	let mut any_replace_above = false; // a Replace strictly newer than i, or i itself a non-replace with a replace anywhere
@@ -404,15 +429,75 @@ fn c10_retention_never_loses_live_version_n4_s2() {
 	history_retained(4, 2);
 }
 
-/// Witness of known finding F7 (only run while F7 is listed): versioning on, unlimited retention,
-/// one open snapshot above two plain sets: the older set is dropped as "superseded".
+/// C10-O2: an erased version never outlives its barrier: if a version with a hard delete or a
+/// replace above it is kept, some barrier above it is kept too (the history readers apply the
+/// barrier at read time; once every barrier above a kept version is gone it shows up in history again).
+fn barrier_never_outlived(maxn: usize, maxs: usize) {
+	let sc = Scenario::any(maxn, maxs, 14);
+	kani::assume(sc.versioning);
+	let mut t = 0;
+	while t < MAXN {
+		kani::assume(sc.ts[t] <= sc.now);
+		t += 1;
+	}
+	let kept = run(&sc);
+	let mut resurfaced_candidate = false;
+	let mut i = 1;
+	while i < sc.n {
+		// (a kept hard-delete marker is never listed by history reads: only value versions,
+		// soft deletes and replaces can "come back")
+		if kept[i] && !sc.is_hard(i) {
+			let mut barrier_above = false;
+			let mut kept_barrier_above = false;
+			let mut j = 0;
+			while j < i {
+				if sc.is_hard(j) || sc.is_replace(j) {
+					barrier_above = true;
+					if kept[j] {
+						kept_barrier_above = true;
+					}
+				}
+				j += 1;
+			}
+			// signature of listed finding F10r (excluded only while it is listed): version i is kept
+			// because a registered snapshot selects it, and every barrier above it is a REPLACE that
+			// left a finite retention window
+			let f10r = cfg!(verif_kf_f10r) && sc.selected_by_a_snapshot(i) && sc.only_expired_replace_barriers_above(i);
+			if barrier_above && !f10r {
+				resurfaced_candidate = true;
+				assert!(kept_barrier_above, "a version erased by a hard delete / replace survives after every barrier above it was dropped");
+			}
+		}
+		i += 1;
+	}
+	kani::cover!(resurfaced_candidate, "a version under a barrier is kept together with its barrier");
+	kani::cover!(sc.n >= 2 && sc.is_replace(0) && !kept[1], "replace erased the version below it");
+}
+
 #[kani::proof]
 #[kani::unwind(6)]
-fn c10_witness_f7_snapshot_supersession_drops_history() {
-	let sc = Scenario::any(2, 1, 14);
-	kani::assume(sc.versioning && sc.ns == 1 && sc.n == 2 && sc.retention == 0);
-	kani::assume(sc.kind[0] == 0 && sc.kind[1] == 0);
+fn c10_barrier_never_outlived_n3_s1() {
+	barrier_never_outlived(3, 1);
+}
+
+#[kani::proof]
+#[kani::unwind(6)]
+fn c10_barrier_never_outlived_n4_s2() {
+	barrier_never_outlived(4, 2);
+}
+
+/// Witness of known finding F10r (only run while it is listed): [Set, Replace (expired), Set] with a
+/// snapshot that still reads the oldest Set: the Replace leaves the retention window and is dropped,
+/// the oldest Set is kept for the snapshot and is no longer hidden from history reads.
+#[kani::proof]
+#[kani::unwind(6)]
+fn c10_witness_f10r_expired_replace_barrier() {
+	let sc = Scenario::any(3, 1, 14);
+	kani::assume(sc.versioning && sc.n == 3 && sc.ns == 1 && sc.retention > 0);
+	kani::assume(sc.kind[0] == 0 && sc.kind[1] == 3 && sc.kind[2] == 0);
 	kani::assume(sc.ts[0] <= sc.now);
+	kani::assume(sc.now - sc.ts[1] > sc.retention);
+	kani::assume(sc.snaps[0] >= sc.seq[2] && sc.snaps[0] < sc.seq[1]);
 	let kept = run(&sc);
-	assert!(kept[1], "F7: older version inside unlimited retention dropped because a snapshot made it 'superseded'");
+	assert!(!kept[2] || kept[1], "F10r: version erased by a replace outlives the replace (dropped by retention) because a snapshot holds it");
 }
